@@ -225,13 +225,19 @@ fn load_corpus(prop: &str) -> Vec<Case> {
         names.sort();
         for p in names {
             if let Ok(t) = std::fs::read_to_string(&p) {
-                // format: line 1 = width, line 2 = cfg encoding, rest = hex of html
+                // format: line 1 = width, line 2 = cfg encoding, line 3 = hex of html
                 let mut it = t.lines();
                 let w = it.next().and_then(|x| x.trim().parse::<usize>().ok());
                 let c = it.next().and_then(|x| Cfg::decode(x.trim()));
                 let h = it.next().map(|x| util::unhex(x.trim()));
+                // optional line 4 = hex of the case's `aux` (the expectation some oracles need)
+                let aux = it.next().map(|x| String::from_utf8_lossy(&util::unhex(x.trim())).to_string());
                 if let (Some(w), Some(c), Some(h)) = (w, c, h) {
-                    v.push(Case::new(h, c, w, "corpus"));
+                    let mut case = Case::new(h, c, w, "corpus");
+                    if let Some(a) = aux {
+                        case.aux = a;
+                    }
+                    v.push(case);
                 }
             }
         }
